@@ -38,4 +38,27 @@ example : (loopHeaderAbort 7 3).1 = MEMORY_ERROR ∧ Ev.free 6 ∈ (loopHeaderAb
 example : (loopHeaderAbort 20 3).1 = MEMORY_ERROR ∧ failIds (loopHeaderAbort 20 3).2.evs = [20] ∧
     final (loopHeaderAbort 20 3).2.evs = some [] := by decide +kernel
 
+/-- cif_container_get_all_loops (container.c; the most-used ladder of the fault census that had no model: 21 library-class
+    fault sites over the operations of family `oom`), for every list of loops (with / without category) and every fault
+    position, from any state: balanced; CIF_OK or CIF_MEMORY_ERROR; on success the caller owns exactly the array, the
+    loop objects and their category strings; on failure every node and category obtained so far is released — also the
+    node whose category could not be copied; CIF_MEMORY_ERROR IFF the fault position is one of the call's requests. -/
+theorem C17_get_all_loops_balanced (cats : List Bool) (failAt : Nat) (s : St) (rest : List Nat)
+    (hb : Balanced s.evs rest) (hc : ∀ i ∈ rest, i ≤ s.count) :
+    let r := getAllLoops failAt cats s
+    Balanced r.2.2.evs ((match r.2.1 with | some (arr, nodes) => arr :: hdrIds nodes | none => []) ++ rest) ∧
+    (r.1 = OK ∨ r.1 = MEMORY_ERROR) ∧ (r.1 = OK ↔ r.2.1.isSome) ∧
+    (r.1 = MEMORY_ERROR ↔ s.count < failAt ∧ failAt ≤ s.count + getAllLoopsAllocs cats) ∧
+    (r.1 = MEMORY_ERROR → failIds r.2.2.evs = failIds s.evs ++ [failAt] ∧ r.2.2.count = failAt) ∧
+    (r.1 = OK → failIds r.2.2.evs = failIds s.evs ∧ r.2.2.count = s.count + getAllLoopsAllocs cats) :=
+  getAllLoops_summary failAt cats s rest hb hc
+
+-- three loops, the second without category: 3 nodes + 2 categories + the array = 6 requests
+example : getAllLoopsAllocs [true, false, true] = 6 ∧ (getAllLoops 0 [true, false, true]).1 = OK ∧
+    ((final (getAllLoops 0 [true, false, true]).2.2.evs).map List.length) = some 6 := by decide +kernel
+
+-- the category of the third loop (request 5) cannot be copied: its node (request 4) is linked and is released
+example : (getAllLoops 5 [true, false, true]).1 = MEMORY_ERROR ∧ Ev.free 4 ∈ (getAllLoops 5 [true, false, true]).2.2.evs ∧
+    final (getAllLoops 5 [true, false, true]).2.2.evs = some [] := by decide +kernel
+
 end CifModel
